@@ -47,6 +47,11 @@ def cases(tier, seed):
         for how in ("value", "exc"):
             out.append({"name": "stack.blocking-throttle/%s/%s" % (">".join(["throttle", "retry"] + above), how), "kind": "blockretrym",
                         "above": above, "how": how})
+    # recursive decomposition over an inline base: a callable (or a map / flat_map function) submits follow-up work to
+    # the same composed executor and uses its result
+    for layers in (["cos"], ["map", "cos"], ["cos", "map"], ["flat_map", "cos"], ["cos", "cos"], ["map"], ["flat_map"], ["cos", "flat_map", "map"]):
+        for site in ("callable", "fn"):
+            out.append({"name": "stack.nested-inline/%s/%s" % (">".join(layers), site), "kind": "nestedinline", "layers": layers, "site": site})
     for a in TYPES:
         # a poll function that raises once: exactly the submissions it was shown fail with that exception
         out.append({"name": "pair.route-raise/%s>poll" % a, "kind": "route", "layers": [a, "poll"], "cap": cap * 2, "poll_raise": True})
@@ -314,7 +319,69 @@ def run_route(case, res):
                 return
 
 
+def run_nestedinline(case, res):
+    ME = instr.ME
+    F = ME.futures
+    for depth in (1, 3):
+        begin("rt")
+        ctx = Ctx()
+        try:
+            top_box = {}
+            calls = []
+
+            def child(k):
+                calls.append(("child", k))
+                if k > 0 and case["site"] == "callable":
+                    return ("c", k, top_box["top"].submit(child, k - 1).result(10))
+                return ("c", k)
+
+            def mapfn(x):
+                # a map function that fans out once per top-level value
+                if case["site"] == "fn" and isinstance(x, tuple) and x and x[0] == "c" and x[1] == depth and not top_box.get("fanned"):
+                    top_box["fanned"] = True
+                    return ("m", x, top_box["top"].submit(child, 0).result(10))
+                return ("m", x)
+            cur = ctx.own(ME.Executors.sync())
+            for t in case["layers"]:
+                if t == "cos":
+                    cur = cur.with_cancel_on_shutdown()
+                elif t == "map":
+                    cur = cur.with_map(mapfn)
+                else:
+                    cur = cur.with_flat_map(lambda x: F.f_return(mapfn(x)))
+                ctx.own(cur)
+            top_box["top"] = cur
+            box = {}
+
+            def client():
+                box["f"] = cur.submit(child, depth)
+            a = ctx.actor("C", client).go()
+            why = drive([a], timeout=15, use_time=False)
+            res.execs += 1
+            check_common(res, deadlock_suffix="@nested-inline/%s" % case["site"])
+            label = "sync>%s, nested submission from the %s, depth %d" % (">".join(case["layers"]), case["site"], depth)
+            if LM.deadlocks:
+                harness.mark_recycle()
+                continue
+            if why != "ok" or "f" not in box:
+                res.violation("outcome-dropped/nested-inline", "%s: submit() did not return (%s): %s" % (label, why, instr.describe_threads()))
+                harness.mark_recycle()
+                continue
+            o = outcome(box["f"])
+            if o[0] != "value":
+                res.violation("outcome-dropped/nested-inline" if o[0] == "pending" else "wrong-outcome/nested-inline",
+                              "%s: the outer future is %s" % (label, outcome_repr(o)))
+            res.key("nestedinline", ">".join(case["layers"]), case["site"], depth)
+            res.sample({"stack": case["layers"], "nested_from": case["site"], "depth": depth, "calls": len(calls), "outcome": outcome_repr(o)}, limit=1)
+        finally:
+            end(ctx)
+        if harness.need_recycle():
+            return
+
+
 def run_case(case, res):
+    if case["kind"] == "nestedinline":
+        return run_nestedinline(case, res)
     if case["kind"] == "blockretrym":
         from . import c04
         return c04.run_blockretrym(case, res)
